@@ -365,6 +365,15 @@ pub const RUBY: &[&str] = &["ruby", "rb", "rp", "rt", "rtc"];
 pub const FOREIGN: &[&str] = &["svg", "math", "mi", "mo", "mn", "ms", "mtext", "annotation-xml", "foreignObject", "desc", "title", "mglyph", "malignmark", "g", "path", "clipPath", "altGlyph"];
 pub const UNKNOWN: &[&str] = &["x", "custom-el", "foo", "span", "isindex", "menuitem", "nextid", "rb"];
 
+/// names the tree builder (or the serializer) legitimately treats specially
+pub fn special_html_names() -> Vec<&'static str> {
+    let mut v = Vec::new();
+    for g in [STRUCTURAL, HEAD_ELEMS, BLOCK, HEADING, LIST, FORMATTING, TABLE, FORMS, VOID_EMBED, RUBY, FOREIGN] {
+        v.extend_from_slice(g);
+    }
+    v
+}
+
 pub fn all_html_names() -> Vec<&'static str> {
     let mut v = Vec::new();
     for g in [STRUCTURAL, HEAD_ELEMS, BLOCK, HEADING, LIST, FORMATTING, TABLE, FORMS, VOID_EMBED, RUBY, FOREIGN, UNKNOWN] {
@@ -588,7 +597,23 @@ pub fn scenario(rng: &mut Rng) -> String {
     let blk = *rng.pick(&["div", "p", "li", "blockquote", "address", "h1", "td", "button", "marquee", "object", "applet", "center", "dd"]);
     let k = rng.range(1, 10);
     let rep = |s: &str, n: usize| s.repeat(n);
-    match rng.below(43) {
+    match rng.below(49) {
+        45..=48 => {
+            // interplay soup: table structure x template x select x formatting, start and end tags in any order
+            const T: &[&str] = &[
+                "<table>", "<tbody>", "<thead>", "<tr>", "<td>", "<th>", "<caption>", "<colgroup>", "<col>", "<template>", "</table>", "</tbody>", "</tr>", "</td>", "</th>", "</caption>", "</colgroup>", "</template>",
+                "<table>", "<tr>", "<td>", "<template>", "</template>", "</tr>", "</td>", "x", " ", "<div>", "</div>", "<select>", "</select>", "<option>", "<b>", "</b>", "<a>", "</a>", "<p>", "<form>", "</form>", "<input>", "<svg>", "</svg>",
+                "<frameset>", "</frameset>", "<head>", "</head>", "<body>", "</body>", "</html>", "<script></script>", "<style>", "</style>", "<br>", "</br>", "</p>", "<li>", "<dd>", "<button>", "<object>", "</object>", "<marquee>", "<nobr>",
+            ];
+            let n = rng.range(3, 16);
+            let mut s = String::new();
+            for _ in 0..n {
+                push_pick(rng, &mut s, T);
+            }
+            s
+        },
+        43 => format!("<form><svg><input/><fieldset/><button/><{fmt}/></svg><math><textarea/><select/><output/><object/><img/></math><img><input></form><svg><input/></svg>"),
+        44 => format!("<form id=f><{blk}><svg><g><select/><input form=f /></g><foreignObject><input><button>x</button></foreignObject></svg></{blk}><template><input></template></form>"),
         40 => format!("<{blk}><template shadowrootmode=open><p>x<{fmt}>y</template>z</{blk}><template shadowrootmode=closed>w"),
         41 => format!("<head><template shadowrootmode=open>a</template></head><body><template shadowrootmode=\"open\" shadowrootdelegatesfocus><{fmt}>b</template>c"),
         42 => format!("<template shadowrootmode=open><template shadowrootmode=open>x</template>y</template><table><template shadowrootmode=closed><tr><td>z"),
@@ -1002,7 +1027,7 @@ fn select_option_content(rng: &mut Rng, out: &mut String) {
 }
 
 fn select_item(rng: &mut Rng, out: &mut String, depth: usize) {
-    match rng.below(12) {
+    match rng.below(13) {
         0..=5 => {
             out.push_str("<option");
             if rng.chance(1, 2) {
@@ -1045,9 +1070,21 @@ fn select_item(rng: &mut Rng, out: &mut String, depth: usize) {
             select_item(rng, out, depth + 1);
             out.push_str("</datalist>");
         },
+        11 if depth < 2 => {
+            // a select nested in a select (needs a scope boundary in between), with or without a
+            // selectedcontent of its own: the outer select's first selectedcontent may sit inside it
+            push_pick(rng, out, &["<object>", "<marquee>", "<table><tr><td>", "<svg><foreignObject>", "<applet>"]);
+            out.push_str("<select>");
+            push_pick(rng, out, &["<selectedcontent>old</selectedcontent>", "<button><selectedcontent>inner</selectedcontent></button>", ""]);
+            select_item(rng, out, depth + 2);
+            out.push_str("</select>");
+            push_pick(rng, out, &["</object>", "</marquee>", "</td></tr></table>", "</foreignObject></svg>", "</applet>", ""]);
+        },
         _ => push_pick(rng, out, &["t", " ", "<span>w</span>", "<!-- x -->"]),
     }
 }
+
+// (the catch-all arm above also takes the guarded cases whose depth limit was reached)
 
 /// `<select>` with a `selectedcontent` target (in a button, bare, inside an option, several, none),
 /// options - selected or not, closed explicitly or not - whose content includes nested elements,
@@ -1076,4 +1113,29 @@ pub fn select_doc(rng: &mut Rng) -> String {
     }
     push_pick(rng, &mut out, &["", "after", "<select><option selected>2</option></select>"]);
     out
+}
+
+// ---- meta elements with hostile charset declarations ------------------------------------------------
+
+const META_CONTENT_TOKENS: &[&str] = &[
+    "charset", "CHARSET", "chars", "Charset", " ", "\t", "\n", "\x0C", "=", "&quot;", "'", ";", "x", "utf-8", "é", "text/html", ",", "charset=", "\u{130}", "\u{212a}", "日本", "\u{10ffff}", "&#13;", "&#xA0;",
+    "charset=&quot;é&quot;", "charset='日'", "charset=&quot;", "charset = 'a b' ", "&quot;é", "é&quot;",
+];
+
+/// a `<meta>` start tag whose charset / http-equiv / content attributes are built from tokens that
+/// stress the "extract a character encoding" scanner: quotes (matched and not), non-ASCII text inside
+/// and around the quotes, white space by character reference, several `charset` words
+pub fn random_meta(rng: &mut Rng) -> String {
+    let mut content = String::new();
+    for _ in 0..rng.below(8) {
+        content.push_str(rng.pick_s(META_CONTENT_TOKENS));
+    }
+    match rng.below(6) {
+        0 => format!("<meta charset=\"{}\">", rng.pick_s(&["utf-8", "", "x", "a b", "é", "&quot;é&quot;"])),
+        1 => format!("<meta http-equiv=\"{}\" content=\"{content}\">", rng.pick_s(&["content-type", "Content-Type", "CONTENT-TYPE", "content-typ", "refresh"])),
+        2 => format!("<meta content=\"{content}\" http-equiv=content-type>"),
+        3 => format!("<meta content=\"{content}\">"),
+        4 => format!("<meta http-equiv=content-type content=\"{content}\" charset=z>"),
+        _ => format!("<meta http-equiv=content-type content=\"{content}\"/>"),
+    }
 }
